@@ -2,6 +2,7 @@ package remed
 
 import (
 	"os"
+	"runtime/debug"
 	"testing"
 
 	"verif/sim"
@@ -10,6 +11,10 @@ import (
 // TestWorker is the entry point verifctl spawns (one OS process per worker).
 func TestWorker(t *testing.T) {
 	sim.Quiet()
+	// A runaway recursion in the library must kill the worker quickly, not after 1 GB of stack:
+	// the coordinator turns the death of a crash-prone check's worker into a `crash` violation
+	// whose replay is the scenario in progress.
+	debug.SetMaxStack(64 << 20)
 	// Budgets of a multi-part check are max-merged over its parts; REMED_QUICK_SECONDS (Part.Env)
 	// keeps this world's share of a quick check short.
 	if s := os.Getenv("REMED_QUICK_SECONDS"); s != "" && os.Getenv("VERIF_TIER") != "thorough" && os.Getenv("VERIF_REPLAY") == "" {
